@@ -38,6 +38,7 @@ type Options struct {
 	Unroll     int  // default unroll bound for loops without invariants (0: reject)
 	UnwindMust bool // unwinding assertions (complete) instead of assumptions
 	MaxInline  int
+	MaxRec     int // path mode: bound on nested activations of a recursive function
 	NoContract map[string]bool // callees to inline even though they have a contract
 	NoPanic    bool            // generate no-panic obligations
 	Overflow   bool            // math-int mode: obligations that int arithmetic stays within 64 bits
@@ -155,9 +156,9 @@ func (x *Exec) assume(st *State, t *Term) { st.PC = x.C.And(st.PC, t) }
 
 // ---------------------------------------------------------------- literals
 
-func (x *Exec) strLenFn() *FuncDecl { return x.C.DeclareFun("str.len", []*Sort{StrSort}, IdxSort) }
+func (x *Exec) strLenFn() *FuncDecl { return x.C.DeclareFun("gostr.len", []*Sort{StrSort}, IdxSort) }
 func (x *Exec) strAtFn() *FuncDecl {
-	return x.C.DeclareFun("str.at", []*Sort{StrSort, IdxSort}, BV(8))
+	return x.C.DeclareFun("gostr.at", []*Sort{StrSort, IdxSort}, BV(8))
 }
 
 func (x *Exec) strLit(s string) *Term {
@@ -1104,11 +1105,11 @@ func (x *Exec) sliceOp(st *State, ins *ssa.Slice) Value {
 // strSub is the substring function with its defining axioms.
 func (x *Exec) strSub(s, lo, hi *Term) *Term {
 	c := x.C
-	f := c.DeclareFun("str.sub", []*Sort{StrSort, IdxSort, IdxSort}, StrSort)
-	if _, ok := c.Axioms["str.sub"]; !ok {
+	f := c.DeclareFun("gostr.sub", []*Sort{StrSort, IdxSort, IdxSort}, StrSort)
+	if _, ok := c.Axioms["gostr.sub"]; !ok {
 		sv, l, h, i := c.Var("s", StrSort), c.Var("l", IdxSort), c.Var("h", IdxSort), c.Var("i", IdxSort)
 		app := c.App(f, sv, l, h)
-		c.Axioms["str.sub"] = []*Term{
+		c.Axioms["gostr.sub"] = []*Term{
 			c.Forall([]*Term{sv, l, h}, c.Implies(c.And(c.BVCmp("bvule", l, h), c.BVCmp("bvule", h, c.App(x.strLenFn(), sv))), c.Eq(c.App(x.strLenFn(), app), c.BVBin("bvsub", h, l))), app),
 			c.Forall([]*Term{sv, l, h, i}, c.Implies(c.And(c.BVCmp("bvule", l, h), c.BVCmp("bvule", h, c.App(x.strLenFn(), sv)), c.BVCmp("bvult", i, c.BVBin("bvsub", h, l))),
 				c.Eq(c.App(x.strAtFn(), app, i), c.App(x.strAtFn(), sv, c.BVBin("bvadd", l, i)))), c.App(x.strAtFn(), app, i)),
@@ -1286,12 +1287,12 @@ func isNilSlice(v Value) bool {
 
 func (x *Exec) strCat(a, b *Term) *Term {
 	c := x.C
-	f := c.DeclareFun("str.cat", []*Sort{StrSort, StrSort}, StrSort)
-	if _, ok := c.Axioms["str.cat"]; !ok {
+	f := c.DeclareFun("gostr.cat", []*Sort{StrSort, StrSort}, StrSort)
+	if _, ok := c.Axioms["gostr.cat"]; !ok {
 		p, q, i := c.Var("p", StrSort), c.Var("q", StrSort), c.Var("i", IdxSort)
 		app := c.App(f, p, q)
 		lp, lq := c.App(x.strLenFn(), p), c.App(x.strLenFn(), q)
-		c.Axioms["str.cat"] = []*Term{
+		c.Axioms["gostr.cat"] = []*Term{
 			c.Forall([]*Term{p, q}, c.Eq(c.App(x.strLenFn(), app), c.BVBin("bvadd", lp, lq)), app),
 			c.Forall([]*Term{p, q, i}, c.Eq(c.App(x.strAtFn(), app, i), c.Ite(c.BVCmp("bvult", i, lp), c.App(x.strAtFn(), p, i), c.App(x.strAtFn(), q, c.BVBin("bvsub", i, lp)))), c.App(x.strAtFn(), app, i)),
 		}
@@ -1301,10 +1302,10 @@ func (x *Exec) strCat(a, b *Term) *Term {
 
 func (x *Exec) strLess(a, b *Term) *Term {
 	c := x.C
-	f := c.DeclareFun("str.less", []*Sort{StrSort, StrSort}, BoolSort)
-	if _, ok := c.Axioms["str.less"]; !ok {
+	f := c.DeclareFun("gostr.less", []*Sort{StrSort, StrSort}, BoolSort)
+	if _, ok := c.Axioms["gostr.less"]; !ok {
 		p, q, r := c.Var("p", StrSort), c.Var("q", StrSort), c.Var("r", StrSort)
-		c.Axioms["str.less"] = []*Term{
+		c.Axioms["gostr.less"] = []*Term{
 			c.Forall([]*Term{p}, c.Not(c.App(f, p, p)), c.App(f, p, p)),
 			c.Forall([]*Term{p, q, r}, c.Implies(c.And(c.App(f, p, q), c.App(f, q, r)), c.App(f, p, r)), c.App(f, p, q), c.App(f, q, r)),
 			c.Forall([]*Term{p, q}, c.Or(c.App(f, p, q), c.App(f, q, p), c.Eq(p, q)), c.App(f, p, q)),
@@ -1352,7 +1353,7 @@ func (x *Exec) convert(st *State, v Value, to types.Type, pos token.Pos) Value {
 		}
 	}
 	if isInteger(from) && isString(to) {
-		return Value{T: to, L: []*Term{c.App(c.DeclareFun("str.fromrune", []*Sort{v.L[0].Sort}, StrSort), v.L[0])}}
+		return Value{T: to, L: []*Term{c.App(c.DeclareFun("gostr.fromrune", []*Sort{v.L[0].Sort}, StrSort), v.L[0])}}
 	}
 	panic(unsupported(fmt.Sprintf("conversion %s -> %s", from, to)))
 }
@@ -1407,15 +1408,40 @@ func (x *Exec) makeInterface(st *State, v Value, ifaceT types.Type) Value {
 	if v.F != nil {
 		panic(unsupported("function value converted to interface"))
 	}
-	// box the value
-	ref := x.Allocate(st)
-	lay := LayoutOf(v.T)
-	for k, lf := range lay.Leaves {
-		name := x.boxComp(v.T, k)
-		cmp := x.comp(st, name, lf.Sort)
-		x.setComp(st, name, lf.Sort, c.Store(cmp, ref, v.L[k]))
+	// Value types are boxed by value: the payload is an injective function of the leaves
+	// (equal values give equal interfaces, as Go's == and map keys require), with inverse
+	// functions to read the leaves back. No heap is involved.
+	return Value{T: ifaceT, L: []*Term{tag, c.App(x.boxFuncs(v.T), v.L...)}}
+}
+
+// boxFuncs declares box$T (leaves -> payload id) and its inverses unbox$T$k.
+func (x *Exec) boxFuncs(t types.Type) *FuncDecl {
+	c := x.C
+	name := "box$" + sanitize(typeKey(t))
+	if f, ok := c.Funcs[name]; ok {
+		return f
 	}
-	return Value{T: ifaceT, L: []*Term{tag, ref}}
+	lay := LayoutOf(t)
+	sorts := make([]*Sort, len(lay.Leaves))
+	vars := make([]*Term, len(lay.Leaves))
+	for k, lf := range lay.Leaves {
+		sorts[k] = lf.Sort
+		vars[k] = c.Var(fmt.Sprintf("b%d", k), lf.Sort)
+	}
+	f := c.DeclareFun(name, sorts, RefSort)
+	app := c.App(f, vars...)
+	var facts []*Term
+	for k, lf := range lay.Leaves {
+		inv := c.DeclareFun(fmt.Sprintf("un%s$%d", name, k), []*Sort{RefSort}, lf.Sort)
+		facts = append(facts, c.Eq(c.App(inv, app), vars[k]))
+	}
+	facts = append(facts, c.IntCmp("<", app, c.IntLit(0))) // never an allocated reference, never nil
+	if len(vars) > 0 {
+		c.Axioms[name] = []*Term{c.Forall(vars, c.And(facts...), app)}
+	} else {
+		c.Axioms[name] = []*Term{c.And(facts...)}
+	}
+	return f
 }
 
 // unbox reads the payload of interface value iv as concrete type t.
@@ -1426,8 +1452,14 @@ func (x *Exec) unbox(st *State, iv Value, t types.Type) Value {
 	}
 	lay := LayoutOf(t)
 	out := Value{T: t, L: make([]*Term, len(lay.Leaves))}
-	for k, lf := range lay.Leaves {
-		out.L[k] = x.C.Select(x.comp(st, x.boxComp(t, k), lf.Sort), iv.L[1])
+	f := x.boxFuncs(t)
+	// unbox(box(v)) = v syntactically when the payload is a known box application
+	if iv.L[1].Op == "app" && iv.L[1].Name == f.Name {
+		copy(out.L, iv.L[1].Args)
+		return out
+	}
+	for k := range lay.Leaves {
+		out.L[k] = x.C.App(x.C.Funcs[fmt.Sprintf("un%s$%d", f.Name, k)], iv.L[1])
 	}
 	return x.wfLoaded(st, out)
 }
